@@ -22,6 +22,12 @@ uint32_t vp_c05_ndis(void) { return C05_NDIS; }
 #define C05_FASTBITS 7
 #endif
 uint32_t vp_c05_fastbits(void) { return C05_FASTBITS; }
+#ifndef C05_ROW_LO
+#define C05_ROW_LO 0
+#define C05_ROW_HI 1000
+#endif
+uint32_t vp_c05_row_lo(void) { return C05_ROW_LO; }
+uint32_t vp_c05_row_hi(void) { return C05_ROW_HI; }
 /* libstdc++ glue: std::__new_allocator<SaslMechanism>::allocate(n) (inline, overridden at class level).  The header version
    ends in operator new(n * sizeof(T)) with a symbolic n (the number of mechanisms that survived the filters): cbmc then
    creates an object of symbolic size and every later access goes through the array theory (measured: SAT runs out of 6 GB
